@@ -8,6 +8,8 @@ mod alloc_track;
 mod args;
 #[cfg(feature = "builder")]
 mod dom_build;
+#[cfg(not(feature = "builder"))]
+mod dom_sized;
 mod dom_cast;
 mod dom_common;
 mod dom_hdr;
@@ -58,7 +60,7 @@ fn run_case(ctx: &mut Ctx, dom: &str, a: &[Arg]) {
         #[cfg(feature = "builder")]
         "ctor" | "hctor" | "build" | "hbuild" | "newboxed" | "clone" => dom_build::run(ctx, dom, a),
         #[cfg(not(feature = "builder"))]
-        "ctor" | "hctor" | "build" | "hbuild" | "newboxed" | "clone" => ctx.out.push("SKIP".into()),
+        "ctor" | "hctor" | "build" | "hbuild" | "newboxed" | "clone" => dom_sized::run(ctx, dom, a),
         _ => ctx.out.push("BADDOMAIN".into()),
     }
 }
